@@ -5,7 +5,8 @@ from vlib import Case, hx
 
 HARNESS = "sim_driver"
 LEAN_MODULES = ["ViaProofs.C14"]
-REQUIRED_THEOREMS = []
+LEMMA_MODULES = ['ViaProofs.ConnLemmas']
+REQUIRED_THEOREMS = ['Via.C14_head', 'Via.C14_next_request']
 LEVEL = "proof"
 TRUSTED_BASE = S.SIM_TRUSTED
 ASSUMPTIONS = S.SIM_ASSUMPTIONS
@@ -30,9 +31,16 @@ def generate(tier, rng):
             lines.append("hs c0 ok")
         target = b"/hello" if o["policy"] == "router" else b"/h"
         for j in range(rng.range(1, 5)):
-            method = rng.choice([b"HEAD", b"HEAD", b"GET", b"POST"])
+            method = rng.choice([b"HEAD", b"HEAD", b"GET", b"POST", b"PUT"])
             hdrs = [gen_sim.HOST]
             body = b""
+            if method == b"PUT" and o["policy"] != "router":
+                # a chunked request right after a HEAD: the flag must not leak into it
+                data = gen_sim.req(method, target, headers=hdrs + [(b"Transfer-Encoding", b"chunked")], chunks=[b"xy"])
+                for part in gen_sim.split_reads(rng, data):
+                    lines.append("read c0 " + hx(part))
+                lines.append("wdone c0")
+                continue
             if method == b"POST":
                 hdrs.append((b"Content-Length", b"3"))
                 body = b"abc"
